@@ -48,6 +48,9 @@ type callSpec struct {
 	// ListOffsets requests number From..To-1 (per partition, per call) are refused: "notleader" (NotLeaderForPartition) or "drop".
 	// client.GetOffset retries once, so [0,2) makes the first ConsumePartition fail, [2,4) the fallback attempt.
 	Faults []faultSpec `json:"faults,omitempty"`
+	// Fetch requests number From..To-1 (per partition, per call) are answered with ErrBrokerNotAvailable for that partition:
+	// a partition-level error the consumer reports to the user (child.sendError) before it re-dispatches
+	FetchErrs []faultSpec `json:"fetch_errs,omitempty"`
 	Plan      []int64   `json:"plan"` // default plan handed out by a sync that is not scripted
 	SetupOK   bool      `json:"setup_ok"`
 	CleanupOK bool      `json:"cleanup_ok"`
@@ -109,6 +112,9 @@ type caseSpec struct {
 	InitialOldest bool       `json:"initial_oldest"`
 	Parts         []partSpec `json:"parts"`
 	Calls         []callSpec `json:"calls"`
+	ReturnErrors  bool       `json:"return_errors,omitempty"` // Consumer.Return.Errors
+	ChanBuf       int        `json:"chan_buf,omitempty"`      // ChannelBufferSize when ReturnErrors (0 or 1); otherwise the default
+	ReadErrors    bool       `json:"read_errors,omitempty"`   // the application reads group.Errors()
 	Close         bool       `json:"close"`
 	Leave         string     `json:"leave,omitempty"` // ok err drop
 }
@@ -161,6 +167,7 @@ const (
 	codeFatal    = 26
 	codeFetchErr = 29
 	codeCommit   = 14
+	codeFetchReq = 8 // ErrBrokerNotAvailable on a fetch: reported through child.sendError, then re-dispatched
 )
 
 func memberName(m int64) string {
@@ -215,6 +222,7 @@ type engine struct {
 
 	setupDone  bool
 	listN      map[int64]int
+	fetchN     map[int64]int
 	started    map[int64]bool
 	steady     map[int64]bool
 	expect     map[int64]bool
@@ -463,6 +471,18 @@ func (e *engine) install(brokers []*sarama.MockBroker) {
 	}
 	c.OnFetch = func(topic string, p int32, off int64) (int, int64, int16) {
 		e.mu.Lock()
+		if e.call != nil {
+			id := partID(topic, p)
+			idx := e.fetchN[id]
+			e.fetchN[id]++
+			for _, f := range e.call.FetchErrs {
+				if f.P == id && idx >= f.From && idx < f.To {
+					e.add(ev{K: "fetcherr", P: id})
+					e.mu.Unlock()
+					return 0, 0, codeFetchReq
+				}
+			}
+		}
 		b := e.lg[partID(topic, p)]
 		if b == nil {
 			e.mu.Unlock()
@@ -712,6 +732,10 @@ func runCase(cs caseSpec) obs {
 	if cs.InitialOldest {
 		cfg.Consumer.Offsets.Initial = sarama.OffsetOldest
 	}
+	if cs.ReturnErrors {
+		cfg.Consumer.Return.Errors = true
+		cfg.ChannelBufferSize = cs.ChanBuf
+	}
 	cfg.Consumer.MaxWaitTime = 10 * time.Millisecond
 	cfg.Consumer.Retry.Backoff = 5 * time.Millisecond
 
@@ -726,6 +750,23 @@ func runCase(cs caseSpec) obs {
 		panic("c07corr: NewConsumerGroupFromClient: " + err.Error())
 	}
 	e.group = g
+	readerDone := make(chan struct{})
+	if cs.ReadErrors {
+		go func() {
+			defer close(readerDone)
+			for err := range g.Errors() {
+				if ce, ok := err.(*sarama.ConsumerError); ok {
+					if k, ok := ce.Err.(sarama.KError); ok && int(k) == codeFetchReq {
+						e.mu.Lock()
+						e.add(ev{K: "err", P: partID(ce.Topic, ce.Partition)})
+						e.mu.Unlock()
+					}
+				}
+			}
+		}()
+	} else {
+		close(readerDone)
+	}
 
 	for i := range cs.Calls {
 		call := &cs.Calls[i]
@@ -739,6 +780,7 @@ func runCase(cs caseSpec) obs {
 		e.cancel = cancel
 		e.started, e.steady, e.expect = map[int64]bool{}, map[int64]bool{}, map[int64]bool{-1: true}
 		e.listN = map[int64]int{}
+		e.fetchN = map[int64]int{}
 		e.allStarted, e.steadyCh = make(chan struct{}), make(chan struct{})
 		steadyCh := e.steadyCh
 		co := e.co
@@ -840,6 +882,12 @@ func runCase(cs caseSpec) obs {
 		case <-e.closeDone:
 		case <-time.After(consumeBound):
 			o.CloseHung = true
+		}
+	}
+	if cs.ReadErrors && sarama.VerifC07GroupClosed(g) && !o.CloseHung {
+		select { // Close closes Errors(): the reader has seen everything
+		case <-readerDone:
+		case <-time.After(consumeBound):
 		}
 	}
 	e.mu.Lock()
